@@ -46,11 +46,17 @@ pub struct RunInput {
 
 impl RunInput {
     pub fn new(seed: u64, tier: Tier) -> Self {
+        let mut overrides = BTreeMap::new();
+        // development aid: force the schedule mode of every run (0 fifo, 1 rare-swap, 2 lifo,
+        // 3 random); recorded as an override so that replay files stay self-contained
+        if let Some(v) = std::env::var("VERIF_SCHED").ok().and_then(|s| s.parse::<i64>().ok()) {
+            overrides.insert("sched".to_string(), v);
+        }
         Self {
             index: 0,
             seed,
             tier,
-            overrides: BTreeMap::new(),
+            overrides,
             faults: FaultMode::Prng,
             record_log: false,
         }
